@@ -329,8 +329,16 @@ func rollbackKey(db *NoKV.DB, reader *Reader, key []byte, startTs uint64) *pb.Ke
 		}
 		return nil
 	}
-	if err := db.DeleteVersionedEntry(kv.CFLock, key, lockColumnTs); err != nil && err != utils.ErrKeyNotFound {
+	// Only this transaction's own lock may be removed: the key can be locked by
+	// another transaction (which is why this one is being rolled back).
+	lock, err := reader.GetLock(key)
+	if err != nil {
 		return keyErrorRetryable(err)
+	}
+	if lock != nil && lock.Ts == startTs {
+		if err := db.DeleteVersionedEntry(kv.CFLock, key, lockColumnTs); err != nil && err != utils.ErrKeyNotFound {
+			return keyErrorRetryable(err)
+		}
 	}
 	if err := db.DeleteVersionedEntry(kv.CFDefault, key, startTs); err != nil && err != utils.ErrKeyNotFound {
 		return keyErrorRetryable(err)
